@@ -36,14 +36,24 @@ var modCache = map[ast.Node]*modset{}
 func (p *Proc) modifiedBy(n ast.Node) *modset {
 	fr := p.cur()
 	m := p.modScan(fr.fi, fr.info, n, 0)
-	// only variables declared outside the loop matter
+	// every modified variable that is live at the loop head is havocked (havocMod skips the ones
+	// not yet declared); in particular the variables declared by a for statement's init clause,
+	// which lie inside the statement's source range
 	out := newModset()
 	out.all = m.all
+	out.pfx = append(out.pfx, m.pfx...)
 	for k, s := range m.heap {
 		out.heap[k] = s
 	}
+	body := n
+	switch x := n.(type) {
+	case *ast.ForStmt:
+		body = x.Body
+	case *ast.RangeStmt:
+		body = x.Body
+	}
 	for v := range m.vars {
-		if v.Pos() < n.Pos() || v.Pos() >= n.End() {
+		if v.Pos() < body.Pos() || v.Pos() >= body.End() {
 			out.vars[v] = true
 		}
 	}
@@ -112,16 +122,55 @@ func (p *Proc) modScan(fi *FuncInfo, info *types.Info, n ast.Node, depth int) *m
 			}
 		}
 	}
+	// closures that cannot run inside the region: those spawned by a go statement and those handed
+	// to a parameter the callee's contract declares deferred
+	skip := map[*ast.FuncLit]bool{}
+	ast.Inspect(n, func(nd ast.Node) bool {
+		switch x := nd.(type) {
+		case *ast.GoStmt:
+			if fl, ok := ast.Unparen(x.Call.Fun).(*ast.FuncLit); ok {
+				skip[fl] = true
+			}
+			for _, a := range x.Call.Args {
+				if fl, ok := ast.Unparen(a).(*ast.FuncLit); ok {
+					skip[fl] = true
+				}
+			}
+		case *ast.CallExpr:
+			ct, sig := p.staticContract(info, x)
+			if ct == nil || sig == nil {
+				return true
+			}
+			for i, a := range x.Args {
+				fl, ok := ast.Unparen(a).(*ast.FuncLit)
+				if !ok || i >= sig.Params().Len() {
+					continue
+				}
+				if defersParam(ct, sig.Params().At(i).Name()) {
+					skip[fl] = true
+				}
+			}
+		}
+		return true
+	})
 	ast.Inspect(n, func(nd ast.Node) bool {
 		switch x := nd.(type) {
 		case *ast.FuncLit:
-			return false
+			// any other closure created in the region may run inside it (synchronous callbacks):
+			// what it modifies counts as modified by the region
+			return !skip[x]
 		case *ast.AssignStmt:
 			for _, l := range x.Lhs {
 				addLhs(l)
 			}
 		case *ast.IncDecStmt:
 			addLhs(x.X)
+		case *ast.SendStmt:
+			m.heap["G:$sendcount"] = SInt
+			m.heap["G:$lastsent"] = SIface
+		case *ast.GoStmt:
+			m.heap["G:$spawncount"] = SInt
+			m.heap["G:$spawned"] = SInt
 		case *ast.RangeStmt:
 			if x.Tok == token.ASSIGN {
 				if x.Key != nil {
@@ -180,6 +229,9 @@ func (p *Proc) modScan(fi *FuncInfo, info *types.Info, n ast.Node, depth int) *m
 					fn, _ = info.Uses[f.Sel].(*types.Func)
 				}
 			}
+			// accounting touched by any call: callbacks invoked, closures handed over
+			m.heap["G:$invoked"] = SInt
+			m.heap["G:$handed"] = SInt
 			if fn == nil {
 				// function value: callbacks under contract modify nothing but ghost state
 				m.all = m.all || !p.callbackIsFramed(info, x)
@@ -187,6 +239,12 @@ func (p *Proc) modScan(fi *FuncInfo, info *types.Info, n ast.Node, depth int) *m
 			}
 			if p.droppedFn(fn) {
 				return true
+			}
+			m.heap["G:$calls:"+fn.Name()] = SInt
+			if sig, ok := fn.Type().(*types.Signature); ok {
+				if nt := namedOf(recvTypeOf(sig)); nt != nil {
+					m.heap["G:$calls:"+nt.Obj().Name()+"."+fn.Name()] = SInt
+				}
 			}
 			key := funcKeyOf(fn)
 			if ct, ok := p.ctx.contracts[key]; ok && !ct.Inline {
@@ -231,6 +289,43 @@ func (p *Proc) modScan(fi *FuncInfo, info *types.Info, n ast.Node, depth int) *m
 		return true
 	})
 	return m
+}
+
+// staticContract resolves the contract (own, lib, or through devirtualisation) of a call's callee.
+func (p *Proc) staticContract(info *types.Info, x *ast.CallExpr) (*Contract, *types.Signature) {
+	var fn *types.Func
+	switch f := ast.Unparen(x.Fun).(type) {
+	case *ast.Ident:
+		fn, _ = info.Uses[f].(*types.Func)
+	case *ast.SelectorExpr:
+		if sel := info.Selections[f]; sel != nil && sel.Kind() == types.MethodVal {
+			fn, _ = sel.Obj().(*types.Func)
+		} else if sel == nil {
+			fn, _ = info.Uses[f.Sel].(*types.Func)
+		}
+	}
+	if fn == nil {
+		return nil, nil
+	}
+	sig := fn.Type().(*types.Signature)
+	key := funcKeyOf(fn)
+	if ct, ok := p.ctx.contracts[key]; ok {
+		return ct, sig
+	}
+	if lib, ok := p.ctx.libs[key]; ok {
+		return lib, sig
+	}
+	if sig.Recv() != nil && isIface(sig.Recv().Type()) {
+		if nt := namedOf(sig.Recv().Type()); nt != nil && nt.Obj().Pkg() != nil {
+			if impl, ok := p.ctx.dirs.Devirt[nt.Obj().Pkg().Path()+"."+nt.Obj().Name()]; ok {
+				i := strings.LastIndex(impl, ".")
+				if ct, ok := p.ctx.contracts[impl[:i]+".(*"+impl[i+1:]+")."+fn.Name()]; ok {
+					return ct, sig
+				}
+			}
+		}
+	}
+	return nil, sig
 }
 
 func (p *Proc) callbackIsFramed(info *types.Info, call *ast.CallExpr) bool {
@@ -410,6 +505,23 @@ func (p *Proc) havocMod(st *State, m *modset, n ast.Node) {
 		st.vars[v] = nv.T
 		p.wfAssume(st, nv)
 	}
+	var ks []string
+	for k := range m.heap {
+		ks = append(ks, k)
+	}
+	sort.Strings(ks)
+	// per-procedure accounting (call, send, spawn and callback counters) the region advances:
+	// forgotten, but counters only grow
+	for _, k := range ks {
+		if !strings.HasPrefix(k, "G:$") {
+			continue
+		}
+		old := p.heapGet(st, k, m.heap[k])
+		nh := p.havocHeap(st, k, m.heap[k])
+		if m.heap[k] == SInt && k != "G:$spawned" {
+			st.assume(Ge(nh, old))
+		}
+	}
 	if m.all {
 		p.havocAll(st)
 		return
@@ -417,13 +529,8 @@ func (p *Proc) havocMod(st *State, m *modset, n ast.Node) {
 	for _, pfx := range m.pfx {
 		p.havocPrefix(st, pfx)
 	}
-	var ks []string
-	for k := range m.heap {
-		ks = append(ks, k)
-	}
-	sort.Strings(ks)
 	for _, k := range ks {
-		if p.ctx.immutableKey(k) {
+		if p.ctx.immutableKey(k) || strings.HasPrefix(k, "G:$") {
 			continue
 		}
 		old := p.heapGet(st, k, m.heap[k])
